@@ -1154,6 +1154,11 @@ func (r *runner) enabled() []string {
 				out = append(out, "arm:"+flt)
 			}
 		}
+		if has("svc:stray") {
+			if _, err := os.Stat(filepath.Join(r.svc.Dir, "zz")); err != nil {
+				out = append(out, "svc:stray:zz")
+			}
+		}
 		for _, db := range dbs {
 			ch := r.svc.Chain(db)
 			for _, k := range []string{"wipe", "back", "ahead", "fork"} {
@@ -1243,6 +1248,11 @@ func (r *runner) stateKey() string {
 		sort.Strings(ks)
 		for _, k := range ks {
 			fmt.Fprintf(h, "svc %s %s\n", k, d[k])
+		}
+		if ents, err := os.ReadDir(r.svc.Dir); err == nil {
+			for _, e := range ents {
+				fmt.Fprintf(h, "svcdir %s\n", e.Name()) // also directories without a transaction file
+			}
 		}
 		for _, name := range r.c.Names() {
 			if fc := r.fcs[name]; fc != nil && r.c.Nodes[name].Running() {
@@ -1417,6 +1427,12 @@ func (r *runner) syncBackup(fault string) bool {
 
 // svcEvent mutates the service behind the primary's back.
 func (r *runner) svcEvent(kind, db string) bool {
+	if kind == "stray" {
+		// what a first upload that failed before its first byte leaves behind: a directory without a transaction file,
+		// for a database no node has (any more)
+		_ = os.MkdirAll(filepath.Join(r.svc.Dir, db), 0o777)
+		return true
+	}
 	for _, n := range r.c.Names() {
 		r.viewOK[n+"/"+db] = false
 	}
